@@ -303,7 +303,18 @@ class FunctionVerifier:
             s = self.fresh_int("%s_shape%d" % (name, d))
             st.assume(z3.And(s >= 0, s <= MAX_DIM))  # assumption A7: array axes have at most 2^48 entries
             shape.append(s)
-        return self.new_loc(st, dtype, shape, name=name)
+        a = self.new_loc(st, dtype, shape, name=name)
+        self.assume_dtype_range(st, dtype, st.heap[a.loc].comps["v"], ndim)
+        return a
+
+    def assume_dtype_range(self, st, dtype, term, ndim):
+        """elements of a narrow integer array are in the dtype's range (every store is checked)"""
+        rng = DTYPES.get(dtype)
+        if rng is None or ndim == 0 or ndim > 3:
+            return
+        ks = [self.fresh_int("r%d" % d) for d in range(ndim)]
+        e = nested_select(term, ks)
+        st.assume(z3.ForAll(ks, z3.And(e >= rng[0], e <= rng[1]), patterns=[e]))
 
     def arr_shape(self, st, a):
         o = st.heap[a.loc]
@@ -1136,6 +1147,8 @@ class FunctionVerifier:
         nd_sub = o.ndim - len(a.prefix)
         for c, srt in elem_sorts(o.dtype).items():
             fresh = self.fresh("hv_%s" % c, arr_sort(srt, nd_sub))
+            if c == "v":
+                self.assume_dtype_range(st, o.dtype, fresh, nd_sub)
             comps[c] = nested_store(o.comps[c], a.prefix, fresh) if a.prefix else fresh
         st.heap[a.loc] = o.with_comps(comps)
 
